@@ -37,9 +37,9 @@ MUTATIONS = [
  ("prune-layers-not-reversed", "pkg/apply/solver/solver.go",
   "\t\tgraph.ReverseSetList(pruneSets)\n", ""),
  ("noprune-forgets-prune-candidates", "pkg/apply/applier.go",
-  "\t\t\t\ttaskContext.InventoryManager().AddSkippedDelete(id)\n", ""),
+  "\t\t\t\ttaskContext.InventoryManager().AddSkippedDelete(id)\n", "\t\t\t\t_ = id\n"),
  ("destroy-ignores-skipped-deletes", "pkg/apply/task/inv_set_task.go",
-  "\tif len(skippedDeletes.Diff(taskContext.AbandonedObjects())) > 0 {\n\t\treturn false\n\t}\n", ""),
+  "\tif len(skippedDeletes.Diff(taskContext.AbandonedObjects())) > 0 {\n\t\treturn false\n\t}\n", "\t_ = skippedDeletes\n"),
  ("can-prune-unowned-under-must-match", "pkg/inventory/policy.go",
   "\tcase Empty:\n\t\tif policy == PolicyAdoptIfNoInventory || policy == PolicyAdoptAll {", "\tcase Empty:\n\t\tif true {"),
  ("client-dry-run-with-ssa-sends-patch", "pkg/apply/task/apply_task.go",
